@@ -602,7 +602,7 @@ func EncodeFileBlock(typ string, payload []byte, useZlib bool, level int, indexD
 	case dmg.Kind == "empty-blob":
 		// neither raw nor zlib_data
 		blob.varint(2, uint64(len(payload)))
-	case useZlib || dmg.Kind == "bad-zlib-header" || dmg.Kind == "corrupt-zlib" || dmg.Kind == "bad-adler" || dmg.Kind == "rawsize-plus" || dmg.Kind == "rawsize-minus" || dmg.Kind == "zlib-truncated":
+	case useZlib || dmg.Kind == "bad-zlib-header" || dmg.Kind == "corrupt-zlib" || dmg.Kind == "bad-adler" || dmg.Kind == "rawsize-plus" || dmg.Kind == "rawsize-minus" || dmg.Kind == "rawsize-abs" || dmg.Kind == "zlib-truncated":
 		if level == 0 {
 			level = zlib.DefaultCompression
 		}
@@ -624,6 +624,9 @@ func EncodeFileBlock(typ string, payload []byte, useZlib bool, level int, indexD
 			rs++
 		case "rawsize-minus":
 			rs--
+		case "rawsize-abs":
+			// a declared uncompressed size unrelated to the data (raw_size is an int32 field)
+			rs = int64(int32(dmg.Arg))
 		}
 		blob.varint(2, uint64(rs))
 		blob.bytes(3, z)
